@@ -90,6 +90,15 @@ pub fn worker(case: &Value) -> Value {
             ("a FUNCTION that leaves a GOSUB behind, called twice, then RETURN at module level",
              "PRINT F%(1); F%(2)\nRETURN\nEND\nFUNCTION F% (N%)\nGOSUB G\nF% = -1\nEXIT FUNCTION\nG:\nF% = N% * 10\nEND FUNCTION\n",
              " 10  20 \r\n", Some((3, 2))),
+            ("RESUME label after an error inside a SUB: the SUB has ended",
+             "DIM A%(2)\nM% = 42\nON ERROR GOTO H\nS 0\nPRINT \"not here\"\nCont:\nPRINT \"cont\"; M%; ERR\nA%(1) = 7\nPRINT A%(1)\nS 2\nPRINT \"end\"\nEND\nH:\nPRINT \"h\"; ERR\nRESUME Cont\nSUB S (D%)\nM% = 5\nPRINT \"s\"; 10 / D%\nEND SUB\n",
+             "sh 11 \r\ncont 42  0 \r\n 7 \r\ns 5 \r\nend\r\n", None),
+            ("RESUME label after an error two calls deep (SUB -> FUNCTION), then an error with no handler",
+             "DIM A%(2)\nM% = 42\nON ERROR GOTO H\nS 0\nPRINT \"not here\"\nCont:\nPRINT \"cont\"; M%\nON ERROR GOTO 0\nA%(5) = 1\nEND\nH:\nPRINT \"h\"; ERR\nRESUME Cont\nSUB S (D%)\nPRINT \"s\"; F%(D%)\nEND SUB\nFUNCTION F% (D%)\nF% = 10 / D%\nEND FUNCTION\n",
+             "sh 11 \r\ncont 42 \r\n", Some((9, 9))),
+            ("RESUME label after an error inside a SUB called from a GOSUB routine: the GOSUB is still pending",
+             "ON ERROR GOTO H\nGOSUB Rtn\nPRINT \"main\"\nEND\nRtn:\nS 0\nPRINT \"not here\"\nCont:\nPRINT \"cont\"\nRETURN\nH:\nPRINT \"h\"; ERR\nRESUME Cont\nSUB S (D%)\nGOSUB Inner\nEXIT SUB\nInner:\nPRINT 10 / D%\nRETURN\nEND SUB\n",
+             "h 11 \r\ncont\r\nmain\r\n", None),
             ("recursive SUB: every activation has its own GOSUB / RETURN pair",
              "R 2\nPRINT \"main\"\nEND\nSUB R (N%)\nGOSUB Show\nIF N% > 0 THEN R N% - 1\nGOSUB Show\nEXIT SUB\nShow:\nPRINT \"n\"; N%\nRETURN\nEND SUB\n",
              "n 2 \r\nn 1 \r\nn 0 \r\nn 0 \r\nn 1 \r\nn 2 \r\nmain\r\n", None),
@@ -271,7 +280,7 @@ pub fn drive(tier: &str) -> i32 {
         states += t as u64;
     }
     cases.push(json!({"k": "callgosub"}));
-    plan.push(json!({"kind": "callgosub", "programs": 5}));
+    plan.push(json!({"kind": "callgosub", "programs": 8}));
     cases.push(json!({"k": "header"}));
     plan.push(json!({"kind": "header", "programs": 28}));
     cases.push(json!({"k": "scope"}));
@@ -285,7 +294,7 @@ pub fn drive(tier: &str) -> i32 {
         run.capped = true;
     }
     let mut ev = Evidence::new("model_checking");
-    ev.set("rule", "jump layouts: up to 3 labelled blocks in every order (quick: two orders for 3 blocks), each ending in fall-through / END / RETURN / GOTO x / GOSUB x / RETURN x for every x, entered by fall-through or by GOTO, at module level and inside a SUB, every block counting its executions (the program stops after 7). loop escapes: every nest of 1..3 loops over {FOR, FOR STEP -1, WHILE, DO..LOOP UNTIL} with pairwise distinct bounds, a GOTO from the innermost body to a label in the body of every shallower level and after the nest, a GOSUB to a routine after the nest; the same with IF / ELSE / CASE / CASE ELSE blocks between the loops. jumps into a block: GOTO to a label in the middle of an IF / ELSEIF / ELSE / CASE / CASE ELSE block, a WHILE / DO body or an IF inside a WHILE, at module level and inside a SUB, once and three times in a row. GOSUB and calls: a RETURN inside a SUB that was called from a GOSUB routine, a GOSUB left behind by EXIT SUB / EXIT FUNCTION followed by a RETURN at module level (both Return without GOSUB, error 3, at the RETURN), and subprograms (also recursive ones) with their own GOSUB / RETURN pairs called from a GOSUB routine. failing block headers: an IF / ELSEIF / second ELSEIF / single-line IF / WHILE / DO WHILE / DO UNTIL / LOOP WHILE / LOOP UNTIL condition, a SELECT CASE subject, a first / second CASE test, a FOR start / limit that divides by zero under ON ERROR GOTO + RESUME (the handler repairs the divisor), at module level and in a SUB: apart from the handler's line the output is that of the repaired program. jumps across scopes: GOTO / GOSUB / RETURN label from a SUB to a module-level label, from the module level into a SUB and from one SUB into another must be rejected with Label not defined at the row of the jump. one fault: 10 failing statement kinds (incl. a built-in that fails after a user FUNCTION has returned within the same statement, also a FUNCTION that itself executes ON ERROR RESUME NEXT) x 17 containers (main, IF / ELSE / ELSEIF blocks, single-line IF, first / middle / ELSE CASE blocks, FOR / FOR STEP / WHILE / DO bodies, an IF block that ends a FOR body, SUB and FUNCTION bodies, the end of the module with subprograms following) x 3 positions x 9 handler modes (none, RESUME with the operand repaired, RESUME NEXT, RESUME label, ON ERROR RESUME NEXT, ON ERROR GOTO 0, a handler that fails itself, and in loop bodies two handlers that resume the first and the second failure of the same statement differently) x handler action. handler histories: the full tree of sequences up to the depth over {ON ERROR GOTO H1, ON ERROR GOTO H2, ON ERROR GOTO 0, ON ERROR RESUME NEXT, failing statement, trace}. Every program is one path of the reference machine (explicit GOSUB stack, handler mode, pending error) replayed on the implementation; trace output, ERR values and the end state with its row are compared.");
+    ev.set("rule", "jump layouts: up to 3 labelled blocks in every order (quick: two orders for 3 blocks), each ending in fall-through / END / RETURN / GOTO x / GOSUB x / RETURN x for every x, entered by fall-through or by GOTO, at module level and inside a SUB, every block counting its executions (the program stops after 7). loop escapes: every nest of 1..3 loops over {FOR, FOR STEP -1, WHILE, DO..LOOP UNTIL} with pairwise distinct bounds, a GOTO from the innermost body to a label in the body of every shallower level and after the nest, a GOSUB to a routine after the nest; the same with IF / ELSE / CASE / CASE ELSE blocks between the loops. jumps into a block: GOTO to a label in the middle of an IF / ELSEIF / ELSE / CASE / CASE ELSE block, a WHILE / DO body or an IF inside a WHILE, at module level and inside a SUB, once and three times in a row. GOSUB and calls: a RETURN inside a SUB that was called from a GOSUB routine, a GOSUB left behind by EXIT SUB / EXIT FUNCTION followed by a RETURN at module level (both Return without GOSUB, error 3, at the RETURN), and subprograms (also recursive ones) with their own GOSUB / RETURN pairs called from a GOSUB routine. RESUME label after an error inside a SUB, two calls deep, and below a pending GOSUB: the subprograms have ended, module-level variables and arrays are the module's again, a later unhandled error lists no call site. failing block headers: an IF / ELSEIF / second ELSEIF / single-line IF / WHILE / DO WHILE / DO UNTIL / LOOP WHILE / LOOP UNTIL condition, a SELECT CASE subject, a first / second CASE test, a FOR start / limit that divides by zero under ON ERROR GOTO + RESUME (the handler repairs the divisor), at module level and in a SUB: apart from the handler's line the output is that of the repaired program. jumps across scopes: GOTO / GOSUB / RETURN label from a SUB to a module-level label, from the module level into a SUB and from one SUB into another must be rejected with Label not defined at the row of the jump. one fault: 10 failing statement kinds (incl. a built-in that fails after a user FUNCTION has returned within the same statement, also a FUNCTION that itself executes ON ERROR RESUME NEXT) x 17 containers (main, IF / ELSE / ELSEIF blocks, single-line IF, first / middle / ELSE CASE blocks, FOR / FOR STEP / WHILE / DO bodies, an IF block that ends a FOR body, SUB and FUNCTION bodies, the end of the module with subprograms following) x 3 positions x 9 handler modes (none, RESUME with the operand repaired, RESUME NEXT, RESUME label, ON ERROR RESUME NEXT, ON ERROR GOTO 0, a handler that fails itself, and in loop bodies two handlers that resume the first and the second failure of the same statement differently) x handler action. handler histories: the full tree of sequences up to the depth over {ON ERROR GOTO H1, ON ERROR GOTO H2, ON ERROR GOTO 0, ON ERROR RESUME NEXT, failing statement, trace}. Every program is one path of the reference machine (explicit GOSUB stack, handler mode, pending error) replayed on the implementation; trace output, ERR values and the end state with its row are compared.");
     ev.set("exhaustive", !run.capped);
     ev.set("plan", json!(plan));
     ev.set("states", states);
